@@ -46,6 +46,7 @@ type daemon struct {
 	table    map[string]string // cid -> "recursive" | "direct" | "indirect"
 	requests []string
 	behave   map[string]string // endpoint -> behaviour
+	capHit   bool              // a repeat-stall was not given up on within 40 pin timeouts
 	srv      *httptest.Server
 	badUnpin bool // pin/update called without unpin=false
 }
@@ -182,6 +183,26 @@ func (d *daemon) pinAdd(w http.ResponseWriter, r *http.Request, args []string, q
 		progress(2)
 		<-r.Context().Done()
 		return
+	case "repeat-stall":
+		// the daemon stays responsive but fetches nothing more: the same
+		// progress figure is repeated, as go-ipfs does on every tick
+		progress(1)
+		progress(2)
+		deadline := time.After(40 * pinTimeout)
+		for {
+			select {
+			case <-r.Context().Done():
+				return
+			case <-deadline:
+				d.mu.Lock()
+				d.capHit = true
+				d.mu.Unlock()
+				drop(w)
+				return
+			case <-time.After(pinTimeout / 3):
+				progress(2)
+			}
+		}
 	case "progress-drop":
 		progress(1)
 		drop(w)
@@ -263,7 +284,7 @@ func wantType(p *api.Pin) string {
 	return "recursive"
 }
 
-const rule = "case = operation (Pin, Unpin, PinLsCid) x pin (recursive, direct, depth 2; 0-2 origins; optional update source) x prior daemon entry of the CID and of the update source (absent, direct, recursive, indirect) x behaviour of each daemon endpoint the operation talks to (ok, IPFS error body with 500, non-JSON 502, connection dropped, and for pin/add: stall before any progress, progress then stall, progress then connection drop, progress then X-Stream-Error trailer, slow but steady progress longer than the pin timeout) x optional caller cancellation; scripted go-ipfs fake with real status codes and message strings; non-trivial = a fault on a step after the first one, an update pin, or a mode conflict; distinct by canonical rendering"
+const rule = "case = operation (Pin, Unpin, PinLsCid) x pin (recursive, direct, depth 2; 0-2 origins; optional update source) x prior daemon entry of the CID and of the update source (absent, direct, recursive, indirect) x behaviour of each daemon endpoint the operation talks to (ok, IPFS error body with 500, non-JSON 502, connection dropped, and for pin/add: stall before any progress, progress then stall, progress then the same progress figure repeated forever, progress then connection drop, progress then X-Stream-Error trailer, slow but steady progress longer than the pin timeout) x optional caller cancellation; scripted go-ipfs fake with real status codes and message strings; non-trivial = a fault on a step after the first one, an update pin, or a mode conflict; distinct by canonical rendering"
 
 func TestConnector(t *testing.T) {
 	leg := ev.L("connector", rule)
@@ -291,7 +312,7 @@ func TestConnector(t *testing.T) {
 		beh := map[string]string{}
 		faults := []string{"", "", "", "error500", "nonjson", "drop"}
 		beh["pin/ls"] = rapid.SampledFrom(faults).Draw(t, "b-ls")
-		addB := []string{"", "", "", "error500", "nonjson", "drop", "stall", "progress-stall", "progress-drop", "slow-progress"}
+		addB := []string{"", "", "", "error500", "nonjson", "drop", "stall", "progress-stall", "repeat-stall", "progress-drop", "slow-progress"}
 		if !kf.Open(KFTrailer) {
 			addB = append(addB, "progress-trailer-error", "progress-trailer-error")
 		} else {
@@ -316,6 +337,7 @@ func TestConnector(t *testing.T) {
 		dm.behave = beh
 		dm.requests = nil
 		dm.badUnpin = false
+		dm.capHit = false
 		dm.mu.Unlock()
 
 		ctx, cancel := context.WithCancel(context.Background())
@@ -396,6 +418,15 @@ func TestConnector(t *testing.T) {
 			}
 			if beh["pin/add"] == "slow-progress" {
 				classes = append(classes, "slow-progress")
+			}
+			if beh["pin/add"] == "repeat-stall" && !usesUpdate && prior != want && beh["pin/ls"] == "" && cancelAfter == 0 {
+				classes = append(classes, "repeat-stall")
+				dm.mu.Lock()
+				hit := dm.capHit
+				dm.mu.Unlock()
+				if hit || err == nil {
+					t.Fatalf("the daemon repeated the same progress figure for 40 pin timeouts and Pin did not give up (err=%v)\ncase: %s", err, desc)
+				}
 			}
 			if (beh["pin/add"] == "stall" || beh["pin/add"] == "progress-stall") && !usesUpdate && prior != want && beh["pin/ls"] == "" && cancelAfter == 0 {
 				classes = append(classes, "stall")
